@@ -11,6 +11,7 @@ type vIns struct {
 	pcOff int    // offset of the PC-relative field inside the instruction (0: none)
 	pcLen int    // 1 or 4
 	free  []int  // additional byte positions that are symbolic (immediates, displacements)
+	fixed bool   // keep every byte as given (function tail of harvested shapes)
 }
 
 // vIsJump: JMP/Jcc (control transfer without a return address); their PC-relative
@@ -34,7 +35,9 @@ type vShape struct {
 func vInstantiate(s *vShape) []byte {
 	nfree := 0
 	for _, in := range s.ins {
-		nfree += in.pcLen + len(in.free)
+		if !in.fixed {
+			nfree += in.pcLen + len(in.free)
+		}
 	}
 	sym := verifBytes("ops", nfree)
 	k := 0
@@ -42,6 +45,9 @@ func vInstantiate(s *vShape) []byte {
 	for _, in := range s.ins {
 		base := len(fn)
 		fn = append(fn, in.b...)
+		if in.fixed {
+			continue
+		}
 		for j := 0; j < in.pcLen; j++ {
 			fn[base+in.pcOff+j] = sym[k]
 			k++
